@@ -62,7 +62,7 @@ func runC20(c *sim.Ctx) {
 	var snaps []*sq.Snapshot
 	for f := 0; f < nfiles; f++ {
 		prof := world.Profile{PageSizes: []int{512, 1024, 4096}, MaxTables: 2, RowsLo: 1, RowsHi: 80, Fancy: 2, WithoutRow: 3, IndexesHi: 2,
-			Boundary: true, LongKeys: 3, JournalMode: []string{"DELETE"}}
+			Boundary: true, LongKeys: 3, JournalMode: []string{"DELETE", "PERSIST", "PERSIST", "TRUNCATE"}} // a persisted journal stays beside the file: every read transaction then inspects it
 		sub, subClean := e.RunDir()
 		defer subClean()
 		w := world.New(c, e.W, sub, prof)
